@@ -606,3 +606,4 @@ def assigned_writers(chk, repo):
 # added rules (appended to the explanation the evidence file carries)
 EXPLANATION += (" " + "Added during the build (DESIGN.md 4.31, second table): check-then-add on the CFG whatever the search looks like; assigned_address by abstract execution (18 cases); initialize() is given an explicit address only from the caller's own parameter.")
 EXPLANATION += (' Added after refactoring wave 6 / wave 8: find_free_address is decided by abstract execution against a bus model (scripted draws, answering terminals, a second task that takes any candidate this task has not reserved at each suspension point; 12 scenarios), the statement-shape rules being the fallback; the CFG check-then-add rule also covers helpers of the class that reserve.')
+EXPLANATION += (' Added after wave 10: (R25.5) who may raise: in the datagram layer EtherCatError is constructed under `wkc == 0` only.')
